@@ -77,6 +77,34 @@ def main():
                     if got != want_i:
                         rec('interpolation_format_layout', call + '._interpolation_format()', fmt, want_i, ref.first_difference(got, want_i))
 
+    # ---- 2b. multichannel expansion: channel j is the array of the j-th projection (item[j % len(item)])
+    if on('mc_format_expansion'):
+        fixed = [([0, [1, 2, 3], 0], [1, [2, 3]], ['lin', ['sin', -2]]), ([[0, 5], [1, 2], 0], [1, 1], 'lin'),
+                 ([0, 1, [2, 3]], [[1, 2, 4]], [['hold', 'step']])]
+        def rnd():
+            n = rng.randint(1, 3)
+            it = lambda f: [f() for _ in range(rng.choice([2, 3, 4]))] if rng.random() < 0.4 else f()
+            return ([it(lambda: rng.randint(-5, 5)) for _ in range(n + 1)], [it(lambda: rng.choice([0.5, 1, 2])) for _ in range(n)],
+                    [it(lambda: rng.choice(names + [-4, 3])) for _ in range(rng.randint(1, n))])
+        for levels, times, curves in fixed + [rnd() for _ in range(spec.get('n_mc', 60))]:
+            call = 'Env(%r, %r, %r)._envgen_format()' % (levels, times, curves)
+            ok, fmt = attempt('mc_format_expansion', call, lambda: Env(levels, times, curves)._envgen_format(), 'format raised')
+            if not ok:
+                continue
+            items = list(levels) + list(times) + (list(curves) if isinstance(curves, list) else [curves])
+            w = max([len(x) for x in items if isinstance(x, list)] + [1])
+            pj = lambda x, j: x[j % len(x)] if isinstance(x, list) else x
+            if len(fmt) != w:
+                rec('mc_format_expansion', call, len(fmt), w, 'number of channels = widest list item')
+                continue
+            for j in range(w):
+                want_j = ref.expected_envgen([pj(x, j) for x in levels], [pj(x, j) for x in times],
+                                             [pj(x, j) for x in curves] if isinstance(curves, list) else curves, None, None)
+                got_j = ref.decode_envgen(list(fmt[j]))
+                if got_j != want_j:
+                    rec('mc_format_expansion', call, fmt[j], want_j, 'channel %d must be the array of the projection: %s' % (j, ref.first_difference(got_j, want_j)))
+                    break
+
     # ---- 3. evaluation laws
     def close(a, b, scale):
         return abs(a - b) <= 1e-5 * max(1.0, scale)
